@@ -26,7 +26,7 @@ IdsOfKind(k) ==
 (* transactions worth asking for: those of blocks ever stored, plus a hash nobody has *)
 SeenTx == UNION {{TxsOf(p)[i] : i \in 1..Len(TxsOf(p))} : p \in seen} \cup {BogusTx}
 
-SimNext ==
+AllNext ==
   \/ \E v \in Variants : Store(v)
   \/ Revert
   \/ \E n \in R(Nums) : SetL1Head(n)
@@ -46,6 +46,9 @@ SimNext ==
   \/ \E t \in R(SeenTx) : GetTransactionByHash(t)
   \/ \E t \in R(SeenTx) : GetTransactionReceipt(t)
   \/ \E t \in R(SeenTx) : GetTransactionStatus(t)
+
+(* guidance: most behaviours start by building a chain (reads on the empty chain stay possible) *)
+SimNext == IF steps < 3 /\ RandomElement(1..4) # 1 THEN \E v \in R(Variants) : Store(v) ELSE AllNext
 
 Step ==
   /\ SimNext
